@@ -591,7 +591,9 @@ def rule_refusal_ends_wait(la, res, site, flag=("channel", "is_accepting_writes"
     res.touched(f)
     loop = set(site["loop"] or ())
     if not loop:
-        return 0
+        # a wait that is not repeated ends with the first wake-up (other rules report the missing loop)
+        res.oblige(rule, "%s: clearing %s ends the wait" % (f.name, ".".join(flag)), True, "the wait is not inside a loop", f.loc(site["stmt"]))
+        return 1
     good = []
 
     def atoms(node, stay_true):
